@@ -649,6 +649,84 @@ options={"scalar_type": "complex128"}'''),
 ]
 
 
+def random_expr_case(rng: random.Random, n: int):
+    """random (expression, points) objects: scalar / vector / tensor valued, rank 0 or 1, cell or facet points,
+    several coefficients (some eliminated by differentiation), constants, literal components."""
+    cell = rng.choice(["interval", "triangle", "triangle", "quadrilateral", "tetrahedron", "hexahedron"])
+    tdim = TDIM[cell]
+    fam, deg = rng.choice([f for f in FAMILIES[cell] if f[1] >= 1 and not f[0].startswith("D")])
+    lines = [f'm=mesh("{cell}",{rng.choice([1, 1, 2]) if cell in ("triangle", "quadrilateral", "interval") else 1})', "x=SpatialCoordinate(m)"]
+    names = []
+    for i in range(rng.choice([1, 2, 3])):
+        r = rng.random()
+        if r < 0.5:
+            lines.append(f'f{i}=Coefficient(space(m,"{fam}",{deg}))')
+            names.append((f"f{i}", "scal", deg))
+        elif r < 0.7:
+            lines.append(f'f{i}=Coefficient(space(m,"{"DP" if cell in SIMPLEX else "DQ"}",0))')
+            names.append((f"f{i}", "scal", 0))
+        else:
+            lines.append(f'f{i}=Coefficient(space(m,"{fam}",{deg},shape=({tdim},)))')
+            names.append((f"f{i}", "vec", deg))
+    if rng.random() < 0.5:
+        lines.append("k0=Constant(m)")
+        names.append(("k0", "const", 0))
+    rank1 = rng.random() < 0.3
+    if rank1:
+        lines.append(f'u=TrialFunction(space(m,"{fam}",{deg}))')
+
+    def c():
+        return rng.randrange(tdim)
+
+    def atom():
+        nm, kd, dg = rng.choice(names)
+        r = rng.random()
+        if kd == "const":
+            return nm
+        if kd == "scal":
+            if dg == 0 or r < 0.5:
+                return nm
+            if r < 0.8:
+                return f"{nm}.dx({c()})"
+            return f"({nm}+{rng.choice(names)[0] if rng.choice(names)[1] != 'vec' else '0.5'}).dx({c()})"
+        return rng.choice([f"{nm}[{c()}]", f"grad({nm})[{c()},{c()}]", f"div({nm})"])
+
+    def scal(depth=0):
+        r = rng.random()
+        if depth >= 2 or r < 0.4:
+            return rng.choice([atom(), atom(), f"x[{c()}]", rng.choice(["1.0", "0.5", "(-2.0)", "0.0"])])
+        a, b = scal(depth + 1), scal(depth + 1)
+        return rng.choice([f"({a}*{b})", f"({a}+{b})", f"({a}-{b})", f"sqrt({a}*{a}+1.0)", f"sin({a})", f"conditional(gt({a},{b}+0.3),{a},{b})", f"max_value({a},{b}+0.3)", f"({a})**2"])
+
+    shape = rng.choice(["scal", "vec", "vec", "ten"])
+    if shape == "scal":
+        e = scal()
+    elif shape == "vec":
+        k = rng.choice([2, 3])
+        e = "as_vector((" + ", ".join(scal() for _ in range(k)) + "))"
+    else:
+        e = "as_matrix(((" + ", ".join(scal() for _ in range(2)) + "), (" + ", ".join(scal() for _ in range(2)) + ")))"
+    if rank1:
+        e = f"({e})*{rng.choice(['u', f'u.dx({c()})'])}"
+    facet = rng.random() < 0.25 and tdim > 1
+    pd = tdim - 1 if facet else tdim
+    npts = rng.choice([1, 2, 3])
+    pts = []
+    for _ in range(npts):
+        p = [rng.randrange(1, 8) / 16 for _ in range(pd)]        # inside the reference simplex / cube
+        pts.append("[" + ",".join(str(v) for v in p) + "]")
+    if facet:
+        lines.append("n=FacetNormal(m)")
+        e = f"({e})*n[{c()}]"
+    lines.append(f"objs=[({e}, np.array([{', '.join(pts)}]))]")
+    return _c(f"rne{n}", "\n".join(lines))
+
+
+def random_expr_cases(seed: int, count: int):
+    rng = random.Random(seed * 7 + 1)
+    return [random_expr_case(rng, i) for i in range(count)]
+
+
 UNSUPPORTED = [
     _c("unsupported_cell_avg", '''
 m=mesh("triangle"); V=space(m,"P",2); v=TestFunction(V); f=Coefficient(V)
